@@ -187,6 +187,72 @@ def search(ck, tier, seed):
                     ck.finding("gradient:eval-gradient-wrong-after-training-step:%s" % name,
                                "%s: tensor %d entry %d: autograd %r, finite difference %r" % (name, k, i, a, d), case)
                     break
+    # training mode with the regularisers the constructors offer (dropout, batch norm inside the conditioner nets): the
+    # dropout mask is pinned by re-seeding before every evaluation, which makes the training-mode function deterministic
+    from nflows.transforms import autoregressive as ar_, coupling as cp_
+    from nflows.nn import nets as nets_
+    from nflows.distributions import mixture as mix_
+
+    def reg_models():
+        yield "MaskedAffineAR(residual, dropout 0.3)", lambda: ar_.MaskedAffineAutoregressiveTransform(3, 8, num_blocks=2, dropout_probability=0.3), [3], None
+        yield "MaskedAffineAR(feed-forward, dropout 0.3, batch norm)", lambda: ar_.MaskedAffineAutoregressiveTransform(
+            3, 8, num_blocks=2, use_residual_blocks=False, dropout_probability=0.3, use_batch_norm=True), [3], None
+        yield "MaskedAffineAR(tanh, ctx, dropout 0.5)", lambda: ar_.MaskedAffineAutoregressiveTransform(
+            3, 8, context_features=2, num_blocks=1, activation=torch.tanh, dropout_probability=0.5), [3], [2]
+        yield "MaskedPiecewiseRQAR(dropout 0.3)", lambda: ar_.MaskedPiecewiseRationalQuadraticAutoregressiveTransform(
+            3, 8, num_bins=3, tails="linear", tail_bound=3.0, num_blocks=1, dropout_probability=0.3), [3], None
+        yield "AffineCoupling(ResidualNet dropout 0.3, batch norm)", lambda: cp_.AffineCouplingTransform(
+            [1, 0, 1], lambda i, o: nets_.ResidualNet(i, o, 8, num_blocks=2, dropout_probability=0.3, use_batch_norm=True)), [3], None
+        yield "AffineCoupling(ConvResidualNet dropout 0.3, batch norm)", lambda: cp_.AffineCouplingTransform(
+            [1, 0, 1], lambda i, o: nets_.ConvResidualNet(i, o, 4, num_blocks=1, dropout_probability=0.3, use_batch_norm=True)), [3, 2, 2], None
+        yield "MADEMoG(dropout 0.3)", lambda: mix_.MADEMoG(3, 8, 2, num_blocks=2, num_mixture_components=2, dropout_probability=0.3), [3], [2]
+    for name, mk, shape, cshape in reg_models():
+        torch.manual_seed(seed)
+        made = attempt(lambda: mk().double())
+        ck.case(("c16-regularised", name), nontrivial=True)
+        case = {"search": "training-mode-regularisers", "model": name, "seed": seed}
+        if made[0] != "ok":
+            continue
+        mdl = made[1]
+        catalogue.randomize(mdl, seed + 5, 0.3)
+        mdl.train()
+        g = tgen(seed, "c16reg", name)
+        x = torch.randn([6] + shape, generator=g, dtype=torch.float64, requires_grad=True)
+        c = None if cshape is None else torch.randn([6] + cshape, generator=g, dtype=torch.float64, requires_grad=True)
+
+        def f(xx, cc):
+            torch.manual_seed(seed + 99)       # pins the dropout mask
+            if hasattr(mdl, "log_prob"):
+                return mdl.log_prob(xx, cc).sum()
+            yy, ll = mdl(xx, cc)
+            return (yy * yy).sum() * 0.5 + ll.sum()
+        r = attempt(f, x, c)
+        if r[0] != "ok":
+            ck.finding("gradient:training-forward-fails:%s" % name, "%s %s" % (r[1], str(r[2])[:160]), case)
+            continue
+        params = [p_ for p_ in mdl.parameters() if p_.requires_grad]
+        tensors = [x] + ([c] if c is not None else []) + params
+        gr = attempt(torch.autograd.grad, r[1], tensors, allow_unused=True)
+        if gr[0] != "ok":
+            ck.finding("gradient:backward-fails:%s:training" % name, "%s in training mode: %s %s" % (name, gr[1], str(gr[2])[:200]), case)
+            continue
+        if all(gv is None or not bool(gv.abs().sum() > 0) for gv in gr[1][len(tensors) - len(params):]):
+            ck.finding("gradient:missing:%s:parameter:training" % name, "%s: no parameter received a gradient in training mode" % name, case)
+            continue
+        with torch.no_grad():
+            for k, (tn, gv) in enumerate(zip(tensors, gr[1])):
+                if tn.numel() == 0:
+                    continue
+                i = tn.numel() // 2
+                d = fd_check(lambda: f(x.detach(), None if c is None else c.detach()), tn, [i])[0]
+                a = 0.0 if gv is None else float(gv.reshape(-1)[i])
+                if abs(a - d) > 1e-4 * (1 + abs(a) + abs(d)):
+                    d2 = fd_check(lambda: f(x.detach(), None if c is None else c.detach()), tn, [i], h=1e-8)[0]   # ReLU kink in the stencil
+                    if abs(a - d2) <= 1e-3 * (1 + abs(a) + abs(d2)):
+                        continue
+                    ck.finding("gradient:wrong:%s:training" % name,
+                               "%s (training mode, pinned dropout mask): tensor %d entry %d: autograd %r, finite difference %r" % (name, k, i, a, d), case)
+                    break
     # flows: log_prob gradients w.r.t. parameters, inputs and context
     from nflows.flows.base import Flow
     from nflows.distributions import normal
